@@ -12,6 +12,8 @@ from .kernel import HarnessError, PipeEnd, Proc, SimThread, World
 
 
 class SimProcess(SimThread):
+    is_process = True
+
     def __init__(self, group: Any = None, target: Any = None, name: Any = None,
                  args: Any = (), kwargs: Any = None, *, daemon: Any = None) -> None:
         super().__init__(group=group, target=target, name=name or 'Process',
